@@ -1392,7 +1392,7 @@ def apply_text_layout(
                 line.append(tseg)
                 attrrange(s.offs, s.offs, len(tseg))
                 rle_join_modify(linec, cs)
-            elif s.offs:
+            elif s.offs is not None:
                 if s.sc:
                     line.append(b"".rjust(s.sc))
                     attrrange(s.offs, s.offs, s.sc)
